@@ -93,6 +93,24 @@ def child_data(kind, child):
     return sorted((enc_point(kind, p), float(v)) for p, v in child.data.items())
 
 
+def public_state(kind, child):
+    """Everything C15 can see of a child."""
+    return {"npoints": int(child.npoints), "data": child_data(kind, child), "pend": child_pending(kind, child),
+            "loss_r": child_loss(child, True), "loss_e": child_loss(child, False)}
+
+
+def _same(a, b):
+    return a == b or (isinstance(a, float) and isinstance(b, float) and math.isnan(a) and math.isnan(b))
+
+
+def same_state(x, y):
+    return all(_same(x[k], y[k]) for k in x)
+
+
+def state_diff(x, y):
+    return "; ".join(f"{k}: {str(x[k])[:60]} -> {str(y[k])[:60]}" for k in x if not _same(x[k], y[k]))
+
+
 # ----------------------------------------------------------------------
 _REG: dict = {}     # id(child) -> Recorder  (not stored on the child: LearnerND pickles its __dict__)
 _SUB: dict = {}     # learner class -> recording subclass
@@ -133,6 +151,7 @@ class Recorder:
         self.base = type(child)
         child.__class__ = _subclass(self.base)
         self.snap0 = self.snapshot(full=True)
+        self.current = self.snap0       # the snapshot that describes the child's present state
         _REG[id(child)] = self
 
     def unwrap(self):
@@ -145,10 +164,15 @@ class Recorder:
                 "pend": child_pending(self.kind, c),
                 "data": child_data(self.kind, c) if full else None}
 
+    def restored_to(self, snap):
+        """The child was put back (utils.restore) into the state described by `snap` (a value of
+        `self.current` taken earlier): not a call on the child, the log simply continues."""
+        self.current = snap
+
     def mark_full(self):
         """Record the data of the child in its latest snapshot (called by the
         harness after every wrapper operation)."""
-        tgt = self.log[-1]["after"] if self.log else self.snap0
+        tgt = self.current
         if tgt["data"] is None:
             tgt["data"] = child_data(self.kind, self.child)
 
@@ -166,6 +190,7 @@ class Recorder:
             finally:
                 self.depth -= 1
             after = self.snapshot()
+            self.current = after
             for x, y in zip(xs, ys):
                 e = {"name": "tell", "pts": [], "imps": [], "raw_pts": [],
                      "call": ("tell", enc_point(self.kind, x), float(y)), "after": after}
@@ -193,6 +218,7 @@ class Recorder:
         else:
             e["call"] = ("remove",)
         e["after"] = self.snapshot()
+        self.current = e["after"]
         self.log.append(e)
         if self.on_call:
             self.on_call(self, e)
